@@ -54,37 +54,44 @@ Section Proofs.
   Proof. unfold cat. rewrite datas_app, concat_app. reflexivity. Qed.
 
   (* ---- inversion of a successful member loop ---- *)
+  Definition nonempty {A} (l : list A) : bool := match l with [] => false | _ => true end.
+
   Lemma read_members_inv L : forall a a',
     read_members L a = Ok a' ->
     Forall member_ok L /\
     a_meta a' = a_meta a ++ cat n_meta L /\
     a_state a' = a_state a ++ cat n_state L /\
     a_sums a' = a_sums a ++ cat n_sums L /\
-    dec_all (a_md a) (datas n_meta L) = Some (a_md a').
+    dec_all (a_md a) (datas n_meta L) = Some (a_md a') /\
+    a_seen_meta a' = a_seen_meta a || nonempty (datas n_meta L) /\
+    a_seen_state a' = a_seen_state a || nonempty (datas n_state L).
   Proof.
     induction L as [|mb L IH]; intros a a' Hr.
-    - cbn in Hr. injection Hr as <-. cbn. rewrite !app_nil_r. repeat split; constructor.
-    - cbn [Model.read_members] in Hr. rewrite !cat_cons, datas_cons.
+    - cbn in Hr. injection Hr as <-. cbn. rewrite !app_nil_r, !orb_false_r. repeat split; constructor.
+    - cbn [Model.read_members] in Hr. rewrite !cat_cons, !datas_cons.
       destruct (String.eqb (m_name mb) n_meta) eqn:Em.
       { apply String.eqb_eq in Em.
         destruct (m_intact mb) eqn:Ei; cbn [negb] in Hr; [|discriminate].
         destruct (dec_meta (a_md a) (m_data mb)) as [md|] eqn:Ed; [|discriminate].
-        apply IH in Hr as (Hall & Hm & Hs & Hq & Hd). cbn [a_meta a_state a_sums a_md] in *.
+        apply IH in Hr as (Hall & Hm & Hs & Hq & Hd & Hsm & Hss).
+        cbn [a_meta a_state a_sums a_md a_seen_meta a_seen_state] in *.
         rewrite Em. change (String.eqb n_meta n_state) with false.
-        change (String.eqb n_meta n_sums) with false. cbn [dec_all]. rewrite Ed.
-        rewrite Hm, <- app_assoc. repeat split; try assumption.
+        change (String.eqb n_meta n_sums) with false. cbn [dec_all nonempty]. rewrite Ed.
+        rewrite Hm, <- app_assoc, Hss, orb_true_r. repeat split; try assumption.
         constructor; [|assumption]. split; [left; assumption|assumption]. }
       destruct (String.eqb (m_name mb) n_state) eqn:Es.
       { apply String.eqb_eq in Es.
         destruct (m_intact mb) eqn:Ei; cbn [negb] in Hr; [|discriminate].
-        apply IH in Hr as (Hall & Hm & Hs & Hq & Hd). cbn [a_meta a_state a_sums a_md] in *.
-        rewrite Es. change (String.eqb n_state n_sums) with false.
-        rewrite Hs, <- app_assoc. repeat split; try assumption.
+        apply IH in Hr as (Hall & Hm & Hs & Hq & Hd & Hsm & Hss).
+        cbn [a_meta a_state a_sums a_md a_seen_meta a_seen_state] in *.
+        rewrite Es. change (String.eqb n_state n_sums) with false. cbn [nonempty].
+        rewrite Hs, <- app_assoc, Hsm, orb_true_r. repeat split; try assumption.
         constructor; [|assumption]. split; [right; left; assumption|assumption]. }
       destruct (String.eqb (m_name mb) n_sums) eqn:Eq; [|discriminate].
       { apply String.eqb_eq in Eq.
         destruct (m_intact mb) eqn:Ei; cbn [negb] in Hr; [|discriminate].
-        apply IH in Hr as (Hall & Hm & Hs & Hq & Hd). cbn [a_meta a_state a_sums a_md] in *.
+        apply IH in Hr as (Hall & Hm & Hs & Hq & Hd & Hsm & Hss).
+        cbn [a_meta a_state a_sums a_md a_seen_meta a_seen_state] in *.
         rewrite Hq, <- app_assoc. repeat split; try assumption.
         constructor; [|assumption]. split; [right; right; assumption|assumption]. }
   Qed.
@@ -136,6 +143,7 @@ Section Proofs.
     t = true /\ Forall member_ok L /\
     s' = cat n_state L /\
     dec_all meta0 (datas n_meta L) = Some m' /\
+    datas n_meta L <> [] /\ datas n_state L <> [] /\
     (exists d, In (Some (d, n_meta)) (parse_sums (cat n_sums L))) /\
     (exists d, In (Some (d, n_state)) (parse_sums (cat n_sums L))) /\
     (forall d, In (Some (d, n_meta)) (parse_sums (cat n_sums L)) -> d = H (cat n_meta L)) /\
@@ -145,10 +153,15 @@ Section Proofs.
     destruct (read_members L (acc0 meta0)) as [a|e] eqn:Erm; [|discriminate].
     destruct t; cbn [negb] in Hr; [|discriminate].
     destruct (decode_and_verify a) as [[]|e] eqn:Edv; [|discriminate].
+    destruct (a_seen_meta a && a_seen_state a) eqn:Eseen; [|discriminate].
     injection Hr as <- <-.
-    apply read_members_inv in Erm as (Hall & Hm & Hs & Hq & Hd). cbn in Hm, Hs, Hq, Hd.
+    apply read_members_inv in Erm as (Hall & Hm & Hs & Hq & Hd & Hsm & Hss).
+    cbn in Hm, Hs, Hq, Hd, Hsm, Hss.
+    apply andb_true_iff in Eseen as [E1 E2]. rewrite Hsm in E1. rewrite Hss in E2.
     apply decode_ok_inv in Edv as (Hlk & Hem & Hes). rewrite Hq in *.
     repeat split; try assumption.
+    - intros Hx. rewrite Hx in E1. discriminate.
+    - intros Hx. rewrite Hx in E2. discriminate.
     - intros d Hin. apply Hlk in Hin. unfold Model.lookup_hash in Hin.
       change (String.eqb n_meta n_meta) with true in Hin. rewrite Hm in Hin. congruence.
     - intros d Hin. apply Hlk in Hin. unfold Model.lookup_hash in Hin.
@@ -160,8 +173,8 @@ Section Proofs.
   Lemma deqb_refl d : deqb d d = true.
   Proof. apply deqb_spec; reflexivity. Qed.
 
-  Lemma verify_written ord m s :
-    decode_and_verify (Acc (enc_meta m) s (print_sums (sums_lines ord m s)) m) = Ok tt.
+  Lemma verify_written ord m s sm ss :
+    decode_and_verify (Acc (enc_meta m) s (print_sums (sums_lines ord m s)) m sm ss) = Ok tt.
   Proof.
     unfold Model.decode_and_verify. cbn [a_sums]. rewrite parse_print.
     destruct ord; unfold Model.sums_lines; cbn [map Model.verify_lines];
@@ -181,8 +194,8 @@ Section Proofs.
     change (String.eqb n_sums n_meta) with false.
     change (String.eqb n_sums n_state) with false.
     change (String.eqb n_sums n_sums) with true.
-    cbn [negb acc0 a_md a_meta a_state a_sums app]. rewrite dec_enc.
-    cbn [negb acc0 a_md a_meta a_state a_sums app].
+    cbn [negb acc0 a_md a_meta a_state a_sums a_seen_meta a_seen_state app]. rewrite dec_enc.
+    cbn [negb acc0 a_md a_meta a_state a_sums a_seen_meta a_seen_state app].
     rewrite verify_written. reflexivity.
   Qed.
 
@@ -205,7 +218,7 @@ Section Proofs.
     read L t = Ok (m', s') ->
     s' = s /\ cat n_state L = s /\ cat n_meta L = enc_meta m.
   Proof.
-    intros Hq Hr. apply read_ok_inv in Hr as (_ & _ & Hs & _ & [dm Hdm] & [ds Hds] & Hm1 & Hs1).
+    intros Hq Hr. apply read_ok_inv in Hr as (_ & _ & Hs & _ & _ & _ & [dm Hdm] & [ds Hds] & Hm1 & Hs1).
     rewrite Hq, parse_print in *.
     pose proof (Hm1 _ Hdm) as E1. pose proof (Hs1 _ Hds) as E2.
     apply In_sums_meta in Hdm. apply In_sums_state in Hds. subst dm ds.
@@ -295,7 +308,7 @@ Section Proofs.
   Lemma no_sums_rejected L t r : cat n_sums L = [] -> read L t = Ok r -> False.
   Proof.
     intros Hq Hr. destruct r as [m' s'].
-    apply read_ok_inv in Hr as (_ & _ & _ & _ & [d Hd] & _).
+    apply read_ok_inv in Hr as (_ & _ & _ & _ & _ & _ & [d Hd] & _).
     rewrite Hq, parse_empty in Hd. destruct Hd.
   Qed.
 
@@ -490,26 +503,26 @@ Section Proofs.
     - rewrite !cat_cons. names. unfold cat, datas; cbn. apply app_nil_r.
   Qed.
 
-  (* "lacks a member ... is rejected": true for state.bin only when the state is not empty *)
-  Theorem missing_state_partial ord m s t r :
-    s <> [] ->
+  (* "lacks a member ... is rejected": also for state.bin, also when the state is empty *)
+  Theorem missing_state_rejected ord m s t r :
     read [Member n_meta (enc_meta m) true; Member n_sums (print_sums (sums_lines ord m s)) true] t
       = Ok r -> False.
   Proof.
-    intros Hne Hr. destruct r as [m' s'].
-    eapply sums_intact_sound with (ord := ord) (m := m) (s := s) in Hr as (_ & Hs & _).
-    - rewrite !cat_cons in Hs. names. unfold cat, datas in Hs; cbn in Hs. congruence.
-    - rewrite !cat_cons. names. unfold cat, datas; cbn. apply app_nil_r.
+    intros Hr. destruct r as [m' s'].
+    apply read_ok_inv in Hr as (_ & _ & _ & _ & _ & Hst & _).
+    apply Hst. rewrite !datas_cons. names. reflexivity.
   Qed.
 
-  (* ... and false for the empty state: the faithful model accepts it. *)
-  Theorem missing_state_empty_accepted ord m :
+  (* the empty-state archive without its state.bin member: its hashes all match, and it is
+     refused because the member never appeared (before the repair recorded in
+     known_findings.json it was accepted) *)
+  Theorem missing_state_empty_refused ord m :
     read [Member n_meta (enc_meta m) true; Member n_sums (print_sums (sums_lines ord m [])) true] true
-      = Ok (m, []).
+      = Err ENotInArchive.
   Proof.
     unfold Model.read. cbn [Model.read_members m_name m_data m_intact]. names.
-    cbn [negb acc0 a_md a_meta a_state a_sums app]. rewrite dec_enc.
-    cbn [negb acc0 a_md a_meta a_state a_sums app].
+    cbn [negb acc0 a_md a_meta a_state a_sums a_seen_meta a_seen_state app]. rewrite dec_enc.
+    cbn [negb acc0 a_md a_meta a_state a_sums a_seen_meta a_seen_state app].
     rewrite verify_written. reflexivity.
   Qed.
 
